@@ -164,26 +164,4 @@ def dec (bs : Bytes) : DRes (CVal × Bytes) := decF (bs.length + 1) bs
 
 def encode (v : CVal) : Option Bytes := if validB maxLen v then some (enc v) else none
 
-/-- What `codec.Decode(&v)` with `v []any` does at top level: an array yields its items, nil an
-    empty slice, and — this is the codec's behaviour, mirrored here — a MAP yields its keys and
-    values interleaved (`[k1, v1, k2, v2, ...]`), decoded as naked values. -/
-def decTop (bs : Bytes) : DRes (List CVal) :=
-  match bs with
-  | [] => .error .malformed
-  | b :: rest =>
-    let fuel := bs.length
-    let items (n : Nat) (r : Bytes) : DRes (List CVal) :=
-      match decItems (decF fuel) n r with
-      | .ok (l, _) => .ok l
-      | .error e => .error e
-    match classify b.toNat with
-    | .fixarr n => items n rest
-    | .fixmap n => items (2 * n) rest
-    | .tag 0xc0 => .ok []
-    | .tag 0xdc => match readBE 2 rest with | .ok (n, r) => items n r | .error e => .error e
-    | .tag 0xdd => match readBE 4 rest with | .ok (n, r) => items n r | .error e => .error e
-    | .tag 0xde => match readBE 2 rest with | .ok (n, r) => items (2 * n) r | .error e => .error e
-    | .tag 0xdf => match readBE 4 rest with | .ok (n, r) => items (2 * n) r | .error e => .error e
-    | _ => .error .malformed
-
 end Nexus.Codec.MsgPack
